@@ -234,6 +234,132 @@ class Ctx:
             ['%s@L%d' % (g.op, g.line) for g in gs], sorted(required)), '%s:%d' % (lf.file, gs[0].line))
         return True
 
+    # ---- layout-independent variants: sites are searched in the whole callee closure of a public entry point and
+    #      arguments are traced through helper parameters up to the callers (deep_origins)
+    def closure_fns(self, entry, depth=6, crates=None):
+        """Views of the workspace functions reachable from `entry` through calls (same crate unless `crates`), entry first.
+        Named sinks are part of the closure (they are functions too); every member is an inlined view."""
+        f0 = entry if not isinstance(entry, str) else self.ws.find(entry)
+        f0 = getattr(f0, '_orig', f0).root()
+        crates = crates or {f0.unit.crate}
+        memo = self.__dict__.setdefault('_cf_memo', {})
+        mk = (id(f0), depth, tuple(sorted(crates)))
+        if mk in memo:
+            return memo[mk]
+        seen = {}
+        work = [(f0, 0)]
+        while work:
+            g, d = work.pop()
+            if id(g) in seen:
+                continue
+            seen[id(g)] = g
+            if d >= depth:
+                continue
+            for h in g.family():
+                for callee, resolved, line in h.calls:
+                    names = [resolved or callee]
+                    # trait calls: every workspace impl
+                    if resolved is None and callee in self.ws.by_name:
+                        names = [callee]
+                    for n in names:
+                        for k in self.ws.by_name.get(n, []):
+                            if k.unit.crate in crates and k.unit.tag == f0.unit.tag and id(k.root()) not in seen:
+                                work.append((k.root(), d + 1))
+                    if resolved is None:
+                        m = callee.rsplit('::', 1)
+                        if len(m) == 2:
+                            for k in self.ws.impls_of_trait_method(m[0], m[1]):
+                                if k.unit.crate in crates and id(k.root()) not in seen:
+                                    work.append((k.root(), d + 1))
+        memo[mk] = list(seen.values())
+        return memo[mk]
+
+    def via_sink(self, og, sink_pats, depth=3):
+        """Does a value with origins `og` come out of (a helper that calls) the sink?  True if og names the sink itself or a
+        workspace function under which the sink is called."""
+        _log_pats(sink_pats)
+        pats = [sink_pats] if isinstance(sink_pats, str) else list(sink_pats)
+        for o in og:
+            if not o.startswith('call:'):
+                continue
+            n = o[5:]
+            if any(glob_match(p, n) for p in pats):
+                return True
+        for o in og:
+            if not o.startswith('call:'):
+                continue
+            n = o[5:]
+            for g in self.ws.by_name.get(n, []):
+                if g.unit.tag in ('lib', 'bin') and g.kind in ('fn', 'assoc_fn'):
+                    try:
+                        if self.closure_sites(g, pats, depth, crates=None):
+                            return True
+                    except Exception:  # noqa
+                        pass
+        return False
+
+    def within(self, entry, depth=6, crates=None):
+        """ids of the root functions under `entry` (to restrict deep_origins to callers on the way from the entry)"""
+        return {id(g) for g in self.closure_fns(entry, depth, crates)}
+
+    def closure_sites(self, entry, callee_pats, depth=6, crates=None):
+        """[(view, call)] for every call matching callee_pats anywhere under `entry`."""
+        _log_pats(callee_pats)
+        key = ('cs', getattr(entry, 'name', entry), tuple([callee_pats] if isinstance(callee_pats, str) else callee_pats), depth)
+        memo = self.__dict__.setdefault('_cs_memo', {})
+        if key in memo:
+            return memo[key]
+        out = []
+        seen = set()
+        for raw in self.closure_fns(entry, depth, crates):
+            # the call index answers "does this function (family) contain such a call" without loading bodies
+            if not any(match_any(callee_pats, n) for h in raw.family() for (cal, res, _l) in h.calls for n in (cal, res) if n):
+                continue
+            v = self.view(raw)
+            for g in v.family():
+                for c in g.body.calls():
+                    if any(match_any(callee_pats, n) for n in c.names()):
+                        k = (getattr(g, '_orig', g).name, c.line, c.bb)
+                        if k not in seen:
+                            seen.add(k)
+                            out.append((g, c))
+        memo[key] = out
+        return out
+
+    def sink_arg(self, clause, entry, callee_pats, argi, require=(), forbid=(), desc='', key=None, mode=True, up=4, min_sites=1, depth=6, crates=None,
+                 require_via=(), forbid_via=()):
+        """Every call of the sink anywhere under `entry`: argument `argi`, traced through helper parameters up to the callers,
+        has all `require` origins and none of the `forbid` origins.  Independent of how the code under `entry` is split."""
+        _log_pats(callee_pats, require, forbid)
+        try:
+            sites = self.closure_sites(entry, callee_pats, depth, crates)
+        except AnchorMissing as e:
+            self.report.missing(clause, e)
+            return None
+        f0 = entry if not isinstance(entry, str) else self.ws.find(entry)
+        cname = callee_pats if isinstance(callee_pats, str) else callee_pats[0]
+        inst = '%s ..> arg%d of %s %s' % (fn_short(f0.name), argi, fn_short(cname.replace('*', '')), desc)
+        k = key or ('%s..%s#%d:%s' % (fn_short(f0.name), fn_short(cname.replace('*', '')), argi, desc))
+        sites = [(g, c) for g, c in sites if argi < len(c.args)]
+        if len(sites) < min_sites:
+            self.report.violation(clause, 'R5', inst, k, 'no call of %s anywhere under %s' % (cname, f0.name), f0.loc())
+            return False
+        bad = []
+        within = self.within(entry, depth, crates)
+        for g, c in sites:
+            og = deep_origins(self.ws, g, c.args[argi], mode, depth=up, within=within)
+            miss = [r for r in require if not _hasp(og, r)]
+            hit = sorted(o for o in og if any(glob_match(x, o) for x in forbid))
+            miss += ['via ' + r for r in require_via if not self.via_sink(og, r)]
+            hit += ['via ' + r for r in forbid_via if self.via_sink(og, r)]
+            if miss or hit:
+                bad.append('%s line %d: missing %s forbidden %s (origins: %s)' % (fn_short(g.name), c.line, miss, hit[:3], sorted(o for o in og if o.startswith(('pty:', 'lty:', 'call:mithril')))[:10]))
+        if bad:
+            self.report.violation(clause, 'R5', inst, k, '; '.join(bad)[:1400], sites[0][0].loc())
+            return False
+        self.report.ok(clause, 'R5', inst, '%d site(s): require %s forbid %s' % (len(sites), list(require), list(forbid)), sites[0][0].loc())
+        return True
+
     def _guard_in_item_closure(self, clause, lf, pred, required, through_calls, allow_shift, inst, k, success, ret_filter):
         from engine import closure_args
         for g in lf.family():
@@ -393,6 +519,8 @@ class Ctx:
         removed = set()
         for g in gs:
             rel_t = CMP_REL[g.op]
+            if pred(g) == 'swap':
+                rel_t = {_FLIP[r] for r in rel_t}
             rel_f = ALL3 - rel_t
             if rel_t <= required:
                 removed |= g.true_edges
@@ -417,7 +545,7 @@ class Ctx:
         for f in self.ws.find_all(scope_glob):
             if f.kind == 'closure' or f.unit.tag != 'lib':
                 continue
-            ok, gs = self.quiet_gate(f, pred, required, per_item=per_item)
+            ok, gs = self.quiet_gate(self.view(f), pred, required, per_item=per_item)
             if ok:
                 out.append(f)
         cache[key] = out
@@ -756,7 +884,7 @@ class Ctx:
         return out
 
 
-def deep_origins(ws, fn, operand, mode=True, depth=3, _seen=None):
+def deep_origins(ws, fn, operand, mode=True, depth=3, _seen=None, within=None):
     """fn_origins, with parameter origins (`p#k[.path]`) replaced by the origins of the corresponding argument at
     every workspace call site of fn (up to `depth` callers up).  Lets a rule state where a value comes from without
     naming the helper functions it travels through."""
@@ -785,12 +913,14 @@ def deep_origins(ws, fn, operand, mode=True, depth=3, _seen=None):
     for caller, _line in callers:
         if caller.unit.tag not in ('lib', 'bin'):
             continue
+        if within is not None and id(caller.root()) not in within:
+            continue        # only callers under the stated entry point
         for c in caller.body.calls():
             if not any(nm in c.names() for nm in names):
                 continue
             for k, suffixes in params.items():
                 if 0 < k <= len(c.args):
-                    sub = deep_origins(ws, caller, c.args[k - 1], mode, depth - 1, _seen)
+                    sub = deep_origins(ws, caller, c.args[k - 1], mode, depth - 1, _seen, within)
                     for x in sub:
                         out.add(x)
                         for suf in suffixes:
